@@ -53,6 +53,22 @@ class FaultyReader:
         return self.inner.read(*a)
 
 
+class CountingReader:
+    """Counts the bytes handed out by a user stream (what the library holds in memory
+    is what it read minus what it has finished sending)."""
+
+    def __init__(self, inner, counter):
+        self.inner, self.counter = inner, counter
+        if hasattr(inner, 'seek') and hasattr(inner, 'tell'):
+            self.seek = inner.seek
+            self.tell = inner.tell
+
+    def read(self, *a):
+        d = self.inner.read(*a)
+        self.counter[0] += len(d)
+        return d
+
+
 class UserBoom(Exception):
     pass
 
@@ -117,6 +133,7 @@ def run(spec, keep_tmp=False, sample=None):
         run_.dests = {}
         run_.sub_names, run_.raising_queued, run_.provided_size = {}, {}, {}
         run_.spec_preexisting, run_.listing_at_result = {}, {}
+        run_.stream_bytes_read = [0]
         ex = env.execs
         cfg = env.config
         if len(ex) == 3:
@@ -151,6 +168,8 @@ def run(spec, keep_tmp=False, sample=None):
                     src = fakes3.NonSeekableReader(data, ts.get('read_sizes'))
                     if nth:
                         src = FaultyReader(src, nth, False)
+                if src_kind != 'path' and (src_kind == 'nonseekable' or ts['size'] >= env.config.multipart_threshold):
+                    src = CountingReader(src, run_.stream_bytes_read)
                 f = m.upload(src, 'b', f'k{i}', subscribers=subs)
                 run_.expect[label] = ('object', ('b', f'k{i}'), data)
             elif kind == 'download':
@@ -192,6 +211,10 @@ def run(spec, keep_tmp=False, sample=None):
                     env.sched.block_until(lambda: env.sched.step >= at or env.sched.others_idle(me_t), 'user think time')
                     env.I.log('user_raises', how=how)
                     raise (UserBoom('boom') if how == 'exit_exc' else KeyboardInterrupt())
+            elif how == 'exit_nowait':
+                with m:
+                    fs = [submit(i, ts) for i, ts in enumerate(transfers)]
+                    env.I.log('user_leaves_with_block')
             elif how == 'exit_wait_kbi':
                 with m:
                     fs = [submit(i, ts) for i, ts in enumerate(transfers)]
@@ -231,6 +254,7 @@ def run(spec, keep_tmp=False, sample=None):
     class TrackedBytesIO(io.BytesIO):
         def __init__(self, *a, **k):
             super().__init__(*a, **k)
+            self.size0 = len(a[0]) if a else 0
             live.append(self)
     old_bytesio = _upload.BytesIO
     _upload.BytesIO = TrackedBytesIO
